@@ -1,0 +1,30 @@
+"""Verification hooks (no-ops unless RONF_ASYNCSSH_VERIF=1 and a sink is set)
+
+   This module is only used by the external verification harness. With
+   the environment variable unset, no sink can be installed and every
+   hook site reduces to a single attribute test.
+
+"""
+
+import os
+from typing import Callable, Dict, Optional
+
+ENABLED = os.environ.get('RONF_ASYNCSSH_VERIF') == '1'
+
+sink: Optional[Callable[[str, Dict[str, object]], None]] = None
+
+
+def set_sink(new_sink: Optional[Callable[[str, Dict[str, object]], None]]) \
+        -> None:
+    """Install (or remove) the event sink; ignored when the guard is off"""
+
+    global sink # pylint: disable=global-statement
+
+    sink = new_sink if ENABLED else None
+
+
+def emit(event: str, **fields: object) -> None:
+    """Report an event to the sink"""
+
+    if sink is not None:
+        sink(event, fields)
